@@ -90,3 +90,96 @@ Section Count.
       rewrite cnt_app. unfold cnt at 3. cbn [filter]. destruct (P l); cbn [length b2] in *; lia.
   Qed.
 End Count.
+
+(* the same for sums of a weight *)
+Section Weight.
+  Variable w : rq_entry -> nat.
+
+  Definition wsum (l : list rq_entry) : nat := list_sum (map w l).
+
+  Lemma wsum_cons x l : wsum (x :: l) = (w x + wsum l)%nat. Proof. reflexivity. Qed.
+  Lemma wsum_app a b : wsum (a ++ b) = (wsum a + wsum b)%nat.
+  Proof. unfold wsum. rewrite map_app, list_sum_app. reflexivity. Qed.
+
+  Lemma wsum_upd d : forall l i x, (i < length l)%nat -> (wsum (upd l i x) + w (nth i l d) = wsum l + w x)%nat.
+  Proof.
+    induction l as [|h t IH]; intros [|i] x H; cbn [length] in H; try lia; cbn [upd nth]; rewrite !wsum_cons.
+    - lia.
+    - specialize (IH i x ltac:(lia)). lia.
+  Qed.
+
+  Lemma swap_wsum h i j x : i <> j -> (i < length h)%nat -> (j < length h)%nat ->
+    wsum (upd (upd h i (hget h j)) j x) = wsum (upd h i x).
+  Proof.
+    intros Hne Hi Hj. unfold hget.
+    pose proof (wsum_upd (mkRq 0 0 0 0) (upd h i (nth j h (mkRq 0 0 0 0))) j x ltac:(rewrite upd_length; exact Hj)) as A.
+    rewrite (nth_upd_other (mkRq 0 0 0 0) h i j _ Hne) in A.
+    pose proof (wsum_upd (mkRq 0 0 0 0) h i (nth j h (mkRq 0 0 0 0)) Hi) as B.
+    pose proof (wsum_upd (mkRq 0 0 0 0) h i x Hi) as C. lia.
+  Qed.
+
+  Lemma sift_up_wsum : forall fuel h pos elt, (pos < length h)%nat -> wsum (sift_up fuel h pos elt) = wsum (upd h pos elt).
+  Proof.
+    induction fuel as [|f IH]; intros h pos elt Hp; cbn [sift_up]; [reflexivity|].
+    destruct pos as [|p]; [reflexivity|]. destruct (rq_le elt _); [reflexivity|].
+    set (parent := Nat.div (S p - 1) 2).
+    assert (Hpar : (parent < S p)%nat).
+    { subst parent. replace (S p - 1)%nat with p by lia. pose proof (Nat.div_le_upper_bound p 2 p ltac:(lia) ltac:(lia)). lia. }
+    rewrite IH by (rewrite upd_length; lia). apply swap_wsum; lia.
+  Qed.
+
+  Lemma sift_down_wsum : forall fuel h pos elt,
+    (pos < length h)%nat -> wsum (sift_down fuel h pos (length h) elt) = wsum (upd h pos elt).
+  Proof.
+    induction fuel as [|f IH]; intros h pos elt Hp; cbn [sift_down]; [apply sift_up_wsum; exact Hp|].
+    destruct (Nat.leb (2 * pos + 1) (length h - 2) && Nat.leb 2 (length h)) eqn:E1.
+    - apply andb_prop in E1 as [A B]. apply Nat.leb_le in A, B.
+      set (c := if rq_le _ _ then (2 * pos + 1 + 1)%nat else (2 * pos + 1)%nat).
+      assert (Hc : (c < length h)%nat /\ c <> pos) by (subst c; destruct (rq_le _ _); lia).
+      pose proof (IH (upd h pos (hget h c)) c elt ltac:(rewrite upd_length; lia)) as X. rewrite upd_length in X.
+      rewrite X. apply swap_wsum; lia.
+    - destruct (Nat.eqb (2 * pos + 1) (length h - 1) && Nat.leb 1 (length h)) eqn:E2.
+      + apply andb_prop in E2 as [A B]. apply Nat.eqb_eq in A. apply Nat.leb_le in B.
+        rewrite sift_up_wsum by (rewrite upd_length; lia). apply swap_wsum; lia.
+      + apply sift_up_wsum. exact Hp.
+  Qed.
+
+  Lemma heap_push_wsum h e : wsum (heap_push h e) = (wsum h + w e)%nat.
+  Proof.
+    unfold heap_push. rewrite sift_up_wsum by (rewrite app_length; cbn; lia).
+    pose proof (wsum_upd (mkRq 0 0 0 0) (h ++ [e]) (length h) e ltac:(rewrite app_length; cbn; lia)) as A.
+    rewrite app_nth2 in A by lia. rewrite Nat.sub_diag in A. cbn [nth] in A.
+    rewrite wsum_app in *. assert (W1 : wsum [e] = w e) by (unfold wsum; cbn; lia). rewrite W1 in *. lia.
+  Qed.
+
+  Lemma heap_pop_wsum h x r : heap_pop h = Some (x, r) -> (wsum r + w x = wsum h)%nat.
+  Proof.
+    unfold heap_pop. destruct (rev h) as [|l rr] eqn:E; [discriminate|].
+    assert (Eh : h = rev rr ++ [l]).
+    { rewrite <- (rev_involutive h), E. reflexivity. }
+    destruct (rev rr) as [|root t] eqn:E2.
+    - intros H. injection H as <- <-. rewrite Eh. unfold wsum. cbn. lia.
+    - pose proof (sift_down_wsum (S (length (root :: t))) (root :: t) 0 l ltac:(cbn; lia)) as Sd.
+      set (sd := sift_down (S (length (root :: t))) (root :: t) 0 (length (root :: t)) l) in *.
+      intros H. injection H as <- <-. rewrite Eh. rewrite Sd.
+      pose proof (wsum_upd (mkRq 0 0 0 0) (root :: t) 0 l ltac:(cbn; lia)) as A. cbn [nth] in A.
+      rewrite wsum_app. assert (W1 : wsum [l] = w l) by (unfold wsum; cbn; lia). rewrite W1. lia.
+  Qed.
+
+  Lemma wsum_le (w' : rq_entry -> nat) l : (forall e, In e l -> (w e <= w' e)%nat) -> (wsum l <= list_sum (map w' l))%nat.
+  Proof.
+    induction l as [|x l IH]; intros H; [cbn; lia|].
+    assert (A : (w x <= w' x)%nat) by (apply H; left; reflexivity).
+    assert (B : (wsum l <= list_sum (map w' l))%nat) by (apply IH; intros e He; apply H; right; exact He).
+    rewrite wsum_cons. change (list_sum (map w' (x :: l))) with (w' x + list_sum (map w' l))%nat. lia.
+  Qed.
+End Weight.
+
+(* a predicate holds of every element iff none fails it; used to carry Forall through the sift operations *)
+Lemma cnt_zero_forall P l : cnt (fun e => negb (P e)) l = 0%nat <-> Forall (fun e => P e = true) l.
+Proof.
+  unfold cnt. induction l as [|x l IH]; cbn [filter]; [split; [constructor|reflexivity]|].
+  destruct (P x) eqn:E; cbn [negb length].
+  - rewrite IH. split; [intros H; constructor; assumption|intros H; inversion H; assumption].
+  - split; [discriminate|]. intros H. inversion H; congruence.
+Qed.
